@@ -328,7 +328,15 @@ impl SupervisionTree {
             for monitor in monitor_targets.iter() {
                 // Clone the event for each monitor (without requiring inner data to be Clone)
                 let monitor_evt = evt.clone_no_data();
+                #[cfg(feature = "verif")]
+                crate::verif::note_mon(monitor, &monitor_evt);
                 if monitor.send_supervisor_evt(monitor_evt).is_err() {
+                    #[cfg(feature = "verif")]
+                    crate::verif::note(format!(
+                        "mondrop {} {}",
+                        evt.actor_id().map(|a| a.pid().to_string()).unwrap_or_else(|| "-".into()),
+                        monitor.get_id().pid()
+                    ));
                     // Best-effort delivery - if send fails, remove the monitor
                     let mut guard = self.monitors.lock().unwrap();
                     if let Some(monitors) = &mut *guard {
